@@ -423,6 +423,58 @@ def panics_free(entries):
     return True
 
 
+# ------------------------------------------------------------------ reviving ops from a replay file (tuples became lists)
+def revive_json(j):
+    if isinstance(j, list):
+        if len(j) == 2 and j[0] == "s" and isinstance(j[1], int) and not isinstance(j[1], bool):
+            return ("s", j[1])
+        return [revive_json(x) for x in j]
+    if isinstance(j, dict):
+        return {"o": [(k, revive_json(v)) for k, v in j["o"]]}
+    return j
+
+
+def revive_cmd(c):
+    k = c[0]
+    a = list(c[1:])
+    if k in ("GroupDeployed", "GroupUpdated"):
+        a[1] = revive_json(a[1])
+    elif k == "MigrationStarted":
+        a[0] = revive_json(a[0])
+    elif k == "ScalingPolicySet":
+        a[0] = None if a[0] is None else (revive_json(a[0][0]),)
+    elif k == "RegisterWorker":
+        a[3] = tuple(a[3])
+    elif k in ("ConnectorCreated", "ConnectorUpdated"):
+        a[1] = (a[1][0], a[1][1], [tuple(p) for p in a[1][2]], a[1][3])
+    elif k == "ModelRegistered":
+        a[1] = tuple(a[1])
+    return tuple([k] + a)
+
+
+def revive_entry(e):
+    lid, p = e
+    p = tuple(p)
+    if p[0] == "c":
+        p = ("c", revive_cmd(p[1]))
+    return (tuple(lid), p)
+
+
+def revive_ops(ops):
+    out = []
+    for o in ops:
+        k = o[0]
+        if k in ("append", "apply", "install"):
+            out.append((k, [revive_entry(e) for e in o[1]]))
+        elif k in ("vote", "delete", "purge"):
+            out.append((k, tuple(o[1])))
+        elif k == "range":
+            out.append((k, tuple(o[1]), tuple(o[2])))
+        else:
+            out.append((k,))
+    return out
+
+
 # ------------------------------------------------------------------ build / run
 def build_all(run, audit_file, translator=True):
     """translator + Coq build + audit + harness build; returns path of vp-raft or None"""
